@@ -81,10 +81,8 @@ func tail(s string, n int) string {
 	return strings.Join(l, "\n")
 }
 
-// drive links the usable cases into one driver and runs the monitor of prop on
-// them in batches (one child process per batch).
-func (r *Run) drive(prop string, cases []*pipeline.Case, n int) {
-	var ok []*pipeline.Case
+// link writes the specs of the usable cases and links them into one driver binary.
+func (r *Run) link(cases []*pipeline.Case) (bin, specDir string, ok []*pipeline.Case) {
 	for _, c := range cases {
 		if c.NoWrite {
 			continue
@@ -95,9 +93,9 @@ func (r *Run) drive(prop string, cases []*pipeline.Case, n int) {
 	}
 	if len(ok) == 0 {
 		r.Inconclusive = append(r.Inconclusive, "no usable case")
-		return
+		return "", "", nil
 	}
-	specDir := filepath.Join(r.WS.Dir, "specs")
+	specDir = filepath.Join(r.WS.Dir, "specs")
 	os.MkdirAll(specDir, 0o755)
 	var imports []string
 	for _, c := range ok {
@@ -109,30 +107,23 @@ func (r *Run) drive(prop string, cases []*pipeline.Case, n int) {
 	bin, err := r.WS.BuildDriver("driver", imports, false)
 	if err != nil {
 		r.Inconclusive = append(r.Inconclusive, err.Error())
-		return
+		return "", "", nil
 	}
-	// batches of cases, one process each
-	nb := 16
-	if len(ok) < nb {
-		nb = len(ok)
-	}
-	batches := make([][]string, nb)
-	for i, c := range ok {
-		batches[i%nb] = append(batches[i%nb], c.Name)
-	}
+	return bin, specDir, ok
+}
+
+// runBatches runs one driver process per batch and merges the results.
+func (r *Run) runBatches(bin, prop string, nb int, args func(i int) []string) {
 	results := make([]*rt.Result, nb)
 	errs := make([]string, nb)
 	pipeline.Parallel(nb, func(i int) {
 		outp := filepath.Join(r.WS.Dir, "out", fmt.Sprintf("%s-%d.json", prop, i))
 		logp := filepath.Join(r.WS.Dir, "out", fmt.Sprintf("%s-%d.log", prop, i))
-		args := []string{"-prop", prop, "-specs", specDir, "-cases", strings.Join(batches[i], ","), "-seed", fmt.Sprint(r.Seed), "-tier", r.Tier, "-out", outp}
-		if n > 0 {
-			args = append(args, "-n", fmt.Sprint(n))
-		}
-		exit, timedOut, err := pipeline.RunDriver(bin, args, logp, 40*time.Minute)
+		a := append([]string{"-prop", prop, "-seed", fmt.Sprint(r.Seed), "-tier", r.Tier, "-out", outp}, args(i)...)
+		exit, timedOut, err := pipeline.RunDriver(bin, a, logp, 40*time.Minute)
 		if err != nil || timedOut || exit != 0 {
 			lb, _ := ioutil.ReadFile(logp)
-			errs[i] = fmt.Sprintf("driver batch %v: exit=%d timeout=%v err=%v\n%s", batches[i], exit, timedOut, err, tail(string(lb), 30))
+			errs[i] = fmt.Sprintf("driver batch %d: exit=%d timeout=%v err=%v\n%s", i, exit, timedOut, err, tail(string(lb), 30))
 			return
 		}
 		b, err := ioutil.ReadFile(outp)
@@ -154,6 +145,67 @@ func (r *Run) drive(prop string, cases []*pipeline.Case, n int) {
 		}
 		r.merge(results[i])
 	}
+}
+
+// drive links the usable cases into one driver and runs the monitor of prop on
+// them in batches (one child process per batch).
+func (r *Run) drive(prop string, cases []*pipeline.Case, n int) {
+	bin, specDir, ok := r.link(cases)
+	if bin == "" {
+		return
+	}
+	nb := 16
+	if len(ok) < nb {
+		nb = len(ok)
+	}
+	batches := make([][]string, nb)
+	for i, c := range ok {
+		batches[i%nb] = append(batches[i%nb], c.Name)
+	}
+	r.runBatches(bin, prop, nb, func(i int) []string {
+		a := []string{"-specs", specDir, "-cases", strings.Join(batches[i], ",")}
+		if n > 0 {
+			a = append(a, "-n", fmt.Sprint(n))
+		}
+		return a
+	})
+}
+
+// drivePairs links the cases and runs the differential monitor on the pairs.
+func (r *Run) drivePairs(prop string, cases []*pipeline.Case, pairs []rt.Pair) {
+	bin, specDir, ok := r.link(cases)
+	if bin == "" {
+		return
+	}
+	have := map[string]bool{}
+	for _, c := range ok {
+		have[c.Name] = true
+	}
+	var usable []rt.Pair
+	for _, p := range pairs {
+		if have[p.A] && have[p.B] {
+			usable = append(usable, p)
+		}
+	}
+	if len(usable) == 0 {
+		r.Inconclusive = append(r.Inconclusive, "no usable pair")
+		return
+	}
+	nb := 16
+	if len(usable) < nb {
+		nb = len(usable)
+	}
+	files := make([]string, nb)
+	for i := 0; i < nb; i++ {
+		var part []rt.Pair
+		for k := i; k < len(usable); k += nb {
+			part = append(part, usable[k])
+		}
+		b, _ := json.Marshal(part)
+		files[i] = filepath.Join(r.WS.Dir, "out", fmt.Sprintf("pairs-%d.json", i))
+		ioutil.WriteFile(files[i], b, 0o644)
+	}
+	r.runBatches(bin, prop, nb, func(i int) []string { return []string{"-specs", specDir, "-pairs", files[i]} })
 }
 
 func (r *Run) merge(res *rt.Result) {
